@@ -127,6 +127,24 @@ def remove_dot_segments (b : Text) : Option Text := do
 /-- `RiBufImpl::from_scheme` -/
 def from_scheme (s : Text) : Text := s ++ [cColon]
 
+/-- the `merged` buffer of the relative branch of `resolve`: the base's scheme and authority, the
+normalised directory of its path, the reference's segments appended symbolically; the result is
+the path of that buffer -/
+def mergedPath (base : Text) (segments : List Text) : Option Text := do
+  let pb0 := from_scheme (scheme base)
+  let pb1 ← set_authority pb0 (authority base)
+  let pb2 ←
+    if (authority base).isSome && Path.is_empty (path base) then set_path pb1 [cSlash]
+    else do
+      let t ← set_path pb1 (Path.parent_or_empty (path base))
+      (path_mut t).normalize.map (·.buffer)
+  let h ← (path_mut pb2).symbolic_append segments
+  -- popping a shielded empty segment leaves its `.` shield behind
+  let h ← h.normalize
+  -- a lone empty segment is the trailing `/` of the removed dot segments
+  let h ← if h.view == [cSlash, cDot, cSlash] || h.view == [cDot, cSlash] then h.clear else some h
+  some (path h.buffer)
+
 /-- `RiRefBufImpl::resolve`; `base` is a full URI/IRI -/
 def resolve (b base : Text) : Option Text :=
   let parts := Parse.reference_parts b 0
@@ -143,19 +161,8 @@ def resolve (b base : Text) : Option Text :=
       remove_dot_segments b2
     else do
       let b2 ← set_authority b1 (authority base)
-      let pb0 := from_scheme (scheme base)
-      let pb1 ← set_authority pb0 (authority base)
-      let pb2 ←
-        if (authority base).isSome && Path.is_empty (path base) then set_path pb1 [cSlash]
-        else do
-          let t ← set_path pb1 (Path.parent_or_empty (path base))
-          (path_mut t).normalize.map (·.buffer)
-      let h ← (path_mut pb2).symbolic_append (Path.segmentList (path b2))
-      -- popping a shielded empty segment leaves its `.` shield behind
-      let h ← h.normalize
-      -- a lone empty segment is the trailing `/` of the removed dot segments
-      let h ← if h.view == [cSlash, cDot, cSlash] || h.view == [cDot, cSlash] then h.clear else some h
-      set_path b2 (path h.buffer)
+      let p ← mergedPath base (Path.segmentList (path b2))
+      set_path b2 p
 
 /-! ## `relative_to`, `suffix`, `base` -/
 
